@@ -144,6 +144,10 @@ def stepLive (st : St) (line : String) : St × String :=
     (match parseKind k, natOf seed, natOf n with
      | some _, some _, some n => if n ≤ 64 then (st, "done") else (st, "bad-op")
      | _, _, _ => (st, "bad-op"))
+  | ["stocklog", k, n] =>
+    (match parseKind k, natOf n with
+     | some _, some n => if 1 ≤ n && n ≤ 2000 then (st, "done") else (st, "bad-op")
+     | _, _ => (st, "bad-op"))
   | ["backlog", k, n] =>
     (match parseKind k, natOf n with
      | some _, some n => if 1 ≤ n && n ≤ 5000 then (st, "done") else (st, "bad-op")
